@@ -10,6 +10,7 @@
 From BBS Require Import Common.Sx Persist.PBL Persist.PBLProofs Persist.Syncer Persist.SyncerProofs Run.R07.
 From BBS Require Import Persist.LiveActs Persist.LiveCover Persist.LiveRelease Persist.LiveFair Persist.LivePut
   Persist.LiveBound Persist.LiveEpoch Persist.LiveTop.
+From BBS Require Import Run.R07MonBase Run.R07MonOps Run.R07MonC123 Run.R07MonTop.
 Local Open Scope nat_scope.
 
 (** No schedule makes any step panic: in particular no wake-up channel is
@@ -468,3 +469,20 @@ Example commit_and_release_example :
   | _ => False
   end.
 Proof. vm_compute. repeat split; reflexivity. Qed.
+
+(** ---- THE MONITOR IS SILENT ON THE MODEL (Run/R07Mon*.v).  [mon07] is the
+    property as a check on implementation observations; [run07h inp hints] is
+    the model's own observation (the hints only resolve the storeLock tie).
+    For EVERY input (no domain hypothesis) and EVERY hint list, clauses 1
+    (release stall), 2 (minimum interval between schedule times, including the
+    rule that a non-retry DataSyncer call no interval timer preceded is itself
+    a schedule time) and 3 (panic / hang marker) never fire: the model never
+    panics, every [quiesce] ends in a quiescent state within its fuel (rank
+    <= 12 < 64), a popped block awaiting release never coincides with a
+    release loop that waits, and in the model a non-retry DataSyncer call
+    while the store is running is entered from [PNotify true] only, which only
+    the expiry of the interval timer in the same operation creates. ---- *)
+Theorem mon07_silent_on_model_partial : forall inp hints k,
+  List.In k (mon07 inp (run07h inp hints)) -> (k = 4 \/ k = 5 \/ k = 6)%Z.
+Proof. exact mon07_clauses_123_silent. Qed.
+Print Assumptions mon07_silent_on_model_partial.
